@@ -221,9 +221,19 @@ Definition ihi (i : ity) : Z :=
 Definition in_irange (i : ity) (z : Z) : bool := (ilo i <=? z) && (z <=? ihi i).
 
 Definition dbits (v : dvar) : Z := match v with D32 => 32 | D64 => 64 | D128 => 128 | D256 => 256 end.
-Definition nat_half (v : dvar) : Z := 2 ^ (dbits v - 1).
+(* 2^(bits-1), written out so that evaluation does not recompute the power *)
+Definition nat_half (v : dvar) : Z :=
+  match v with
+  | D32 => 2147483648
+  | D64 => 9223372036854775808
+  | D128 => 170141183460469231731687303715884105728
+  | D256 => 57896044618658097711785492504343953926634992332820282019728792003956564819968
+  end.
 Definition in_native (v : dvar) (z : Z) : bool := (- nat_half v <=? z) && (z <=? nat_half v - 1).
-Definition wrap_native (v : dvar) (z : Z) : Z := (z + nat_half v) mod (2 * nat_half v) - nat_half v.
+(* two's-complement wrap-around into the native integer: (z + 2^(b-1)) mod 2^b - 2^(b-1); the
+   in-range shortcut only avoids a bignum division during evaluation (wrap_native_spec) *)
+Definition wrap_native (v : dvar) (z : Z) : Z :=
+  if in_native v z then z else (z + nat_half v) mod (2 * nat_half v) - nat_half v.
 
 (* validate_decimal_precision_and_scale *)
 Definition valid_dec (v : dvar) (p s : Z) : bool :=
